@@ -533,7 +533,56 @@ static int sweep_c11(int argc, char **argv) {
             session_table_destroy(tab);
         }
     }
+    /* the classified Discover follows an earlier Discover of the same session whose list was longer and had the own address
+     * somewhere else; behind the entries the count field covers, the receive buffer still holds what earlier frames left there -
+     * the own address included.  Only the counted entries of *this* frame decide. */
+    unsigned long long seq_cases = 0;
+    {
+        static const int hs[] = {1, 2, 5, 6, 50, 239};
+        for (size_t hi = 0; hi < sizeof(hs) / sizeof(hs[0]); hi++) for (int chg = 0; chg < 2; chg++) for (int recorded = 0; recorded < 2; recorded++) {
+            int h = hs[hi];
+            if (h + 1 > nmax) continue;
+            for (int c = 1; c <= h; c += (h > 6 ? 7 : 1)) for (int jj = 0; jj < 4; jj++) {
+                /* where the own address stands in the second frame: at the old place (behind the list now), right behind the
+                 * list, inside the list, nowhere */
+                int j = jj == 0 ? h : jj == 1 ? c : jj == 2 ? c - 1 : -1;
+                session_table *tab = session_table_create();
+                if (!tab) { viol("C11:setup", "session_table_create failed"); return 0; }
+                for (int step = 0; step < 2; step++) {
+                    int n = step == 0 ? h + 1 : c;
+                    int p = step == 0 ? h : j;
+                    uint16_t xid = (uint16_t)(step == 1 && chg ? XID + 1 : XID);
+                    vp_fill_stream(buf, mtu, fseed + 13);
+                    size_t o = mk_base(buf, BCAST, MX, 0, 0, BCAST, MX, xid);
+                    buf[o++] = GEN >> 8; buf[o++] = GEN & 255; buf[o++] = (uint8_t)(n >> 8); buf[o++] = (uint8_t)n;
+                    uint32_t s4 = fseed * 31337u + (uint32_t)h * 17u + (uint32_t)c;
+                    for (size_t i = 36; i < mtu; i++) buf[i] = (uint8_t)(0x80 | (vp_prng(&s4) >> 9));
+                    if (p >= 0) memcpy(buf + 36 + 6 * p, OWN, 6);
+                    int known = step == 1 && recorded;
+                    int ack = p >= 0 && p < n;
+                    int r = derive_session_event(buf, tab, OWN);
+                    int e = c11_expect(ack, known && chg);
+                    cases++; seq_cases++;
+                    if (r != e) {
+                        char key[160];
+                        snprintf(key, sizeof(key), "C11:discover:%s-after-an-earlier-discover-of-the-session",
+                                 r == c11_expect(!ack, known && chg) ? (ack ? "own-address-in-list-not-recognised" : "address-behind-the-list-recognised") : "wrong-event");
+                        viol(key, "first Discover: %d stations, own address at %d (session %s); second Discover (%s sequence number): %d stations, own address at "
+                             "entry %d (%s): derive_session_event=%d expected %d", h + 1, h, recorded ? "recorded" : "not recorded", chg ? "changed" : "same", c, j,
+                             j < 0 ? "absent" : j < c ? "inside the list" : "behind the list, in the buffer's tail", r, e);
+                        break;
+                    } else nontriv++;
+                    if (step == 0 && recorded) {
+                        session_entry *en = session_table_add(tab, MX, GEN, XID);       /* what the daemon does with a Discover */
+                        if (en) en->state = (uint8_t)r;
+                    }
+                }
+                session_table_destroy(tab);
+            }
+        }
+    }
     stat_ull("cases", cases);
+    stat_ull("second_discover_cases", seq_cases);
     stat_ull("table_history_cases", hist_cases);
     stat_ull("clock_advanced_cases", clk_cases);
     stat_ull("straddling_cases", straddle);
